@@ -33,6 +33,31 @@ Fixpoint owner_upto (a : nat) : nat :=
 Definition nfree_of (g : nat) : Z :=
   match find_rmeta metas g with Some m => rm_nfree m | None => 0 end.
 
+(* the opcodes of the function entered at g, up to the next function entry *)
+Fixpoint body_ops (l : list rinstr) (a : nat) : list N :=
+  match l with
+  | [] => []
+  | i :: t => match find_rmeta metas a with Some _ => [] | None => N_of_opcode (r_op i) :: body_ops t (S a) end
+  end.
+
+Definition region_ops (g : nat) : list N :=
+  match skipn g prog with [] => [] | i :: t => N_of_opcode (r_op i) :: body_ops t (S g) end.
+
+Fixpoint ops_eqb (a b : list N) : bool :=
+  match a, b with
+  | [], [] => true
+  | x :: a', y :: b' => N.eqb x y && ops_eqb a' b'
+  | _, _ => false
+  end.
+
+(* COPYGLOB; ID_FUNC_ADDR g builds a function value over the RUNNING function's environment: g must be
+   that function, or another emission of it (the emitter emits the body of a for-in over a range twice,
+   ascending and descending half, and with it every function nested there; both copies get the address of
+   the last one): the same environment size and the same opcode sequence *)
+Definition self_or_copy (g owner : nat) : bool :=
+  Nat.eqb g owner ||
+  ((nfree_of g =? nfree_of owner) && ops_eqb (region_ops g) (region_ops owner)).
+
 Definition ref_ok_at (a : nat) (i : rinstr) : bool :=
   match r_op i with
   | BYTECODE_UNKNOWN | BYTECODE_ID_FUNC_FUNC | BYTECODE_END => false
@@ -51,7 +76,7 @@ Definition ref_ok_at (a : nat) (i : rinstr) : bool :=
           | Some j =>
             match r_op j with
             | BYTECODE_GLOBAL_VEC => r_w0 j =? rm_nfree m
-            | BYTECODE_COPYGLOB => Nat.eqb (Z.to_nat (r_w0 i)) (owner_upto a)
+            | BYTECODE_COPYGLOB => self_or_copy (Z.to_nat (r_w0 i)) (owner_upto a)
             | _ => false
             end
           | None => false
@@ -91,7 +116,7 @@ Theorem check_refs_sound : check_refs = true ->
        exists m, find_rmeta metas (Z.to_nat (r_w0 i)) = Some m /\
          exists a' j, a = S a' /\ nth_error prog a' = Some j /\
            ((r_op j = BYTECODE_GLOBAL_VEC /\ r_w0 j = rm_nfree m) \/
-            (r_op j = BYTECODE_COPYGLOB /\ Z.to_nat (r_w0 i) = owner_upto a))).
+            (r_op j = BYTECODE_COPYGLOB /\ self_or_copy (Z.to_nat (r_w0 i)) (owner_upto a) = true))).
 Proof.
   intros H a i Hn.
   pose proof (check_from_sound prog 0 a i H Hn) as R. cbn [Nat.add] in R.
@@ -117,7 +142,7 @@ Proof.
     exists a', j. split; [reflexivity|]. split; [exact Ej|].
     destruct (r_op j) eqn:Eo; try discriminate.
     + left. split; [reflexivity|]. now apply Z.eqb_eq in R.
-    + right. split; [reflexivity|]. now apply Nat.eqb_eq in R.
+    + right. split; [reflexivity|]. exact R.
   - (* BUILD_IN *)
     apply andb_true_iff in R. destruct R as [R1 R2].
     apply Z.leb_le in R1. apply Z.leb_le in R2.
